@@ -56,8 +56,9 @@ Definition in_conn (m : mpc) : bool :=
 Definition ret_pc (m : mpc) : bool := match m with MReturning | MReturned => true | _ => false end.
 Definition may_be_open (m : mpc) : bool :=
   match m with MProbe | MSpawn | MOnConnect | MRead | MEofSleep | MCloseQuit | MCloseConn => true | _ => false end.
+Definition absent_pc (m : mpc) : bool := match m with MProbe | MSpawn => true | _ => false end.
 Definition started (c : crec) : Z :=
-  match c_w c with WSelect | WExitStore | WCloseConn | WDefer => 1 | _ => 0 end.
+  match c_w c with WNotStarted | WSelect | WExitStore | WCloseConn | WDefer => 1 | _ => 0 end.
 Fixpoint count_started (l : list crec) : Z := match l with [] => 0 | c :: r => started c + count_started r end.
 Definition main_c (m : mpc) : Z := match m with MStart | MReturned => 0 | _ => 1 end.
 Definition past_exit (c : crec) : bool := match c_w c with WCloseConn | WDefer | WDone => true | _ => false end.
@@ -83,7 +84,9 @@ Record Inv (s : st) (h : list lab) : Prop := mkInv {
   i_retry_ret : ret_pc (s_m s) = true -> s_cs s = [] \/ c_exit (cur s) = true \/ has_retry h = true;
   i_conn_nonempty : (in_conn (s_m s) = true \/ may_be_open (s_m s) = true) -> s_cs s <> [];
   i_start : s_m s = MStart -> s_cs s = [];
-  i_wexit : Forall (fun c => c_w c = WExitStore -> s_ctx s = true) (s_cs s)
+  i_wexit : Forall (fun c => c_w c = WExitStore -> s_ctx s = true) (s_cs s);
+  i_abs_old : Forall (fun c => c_w c <> WAbsent) (tl (s_cs s));
+  i_abs_cur : absent_pc (s_m s) = false -> Forall (fun c => c_w c <> WAbsent) (s_cs s)
 }.
 
 Lemma inv_init : Inv init [].
@@ -166,13 +169,13 @@ Ltac solve_forall :=
 Lemma inv_main : forall s h e s' l, Inv s h -> main_step s e = Some (s', l) -> Inv s' (h ++ [l]).
 Proof.
   intros [m cs wg ctx] h e s' l I H.
-  destruct I as [Ialt Ictx Iec Idt Ibef Ilast Ictr Ioo Ioc Iwg Iabs Ies Ird Ir2 Irr Icn Ist Iwe].
+  destruct I as [Ialt Ictx Iec Idt Ibef Ilast Ictr Ioo Ioc Iwg Iabs Ies Ird Ir2 Irr Icn Ist Iwe Iao Iac].
   cbn [s_m s_cs s_wg s_ctx] in *.
   unfold main_step in H; cbn [s_m s_cs s_wg s_ctx] in H.
   destruct m; destruct e; try discriminate H;
     repeat match type of H with context [if ?b then _ else _] => destruct b eqn:? end;
     try discriminate H; inversion H; subst; clear H;
-    (constructor; cbn [s_m s_cs s_wg s_ctx cur hd tl upd_cur in_conn ret_pc may_be_open main_c dial_pc negb];
+    (constructor; cbn [s_m s_cs s_wg s_ctx cur hd tl upd_cur in_conn ret_pc may_be_open absent_pc main_c dial_pc negb];
      rewrite ?cbs_app, ?has_cancel_app, ?has_retry_app, ?has_ct_app; cbn [cbs has_cancel has_retry has_ct existsb app orb];
      rewrite ?app_nil_r, ?orb_false_r, ?orb_true_r;
      try (rewrite expect_after_app, Ialt; reflexivity);
@@ -182,7 +185,7 @@ Proof.
   all: try (apply cancelled_last_app1; [assumption|]; destruct (has_ct (cbs h)) eqn:Ehc; [specialize (Ictr eq_refl); discriminate|reflexivity]).
   all: try (intro Hx; specialize (Ictr Hx); discriminate).
   all: try (match goal with |- @eq Z _ _ => lia end).
-  all: cbn [in_conn ret_pc may_be_open dial_pc] in *.
+  all: cbn [in_conn ret_pc may_be_open absent_pc dial_pc] in *.
   all: try (apply Ioc; reflexivity).
   all: try (intros _ Hne; exfalso; apply Hne; apply Ist; reflexivity).
   all: try (intros Hlen; apply Ird; [reflexivity|intro; subst; cbn in Hlen; lia]).
@@ -197,6 +200,13 @@ Proof.
   all: try (intros; apply Icn; auto; fail).
   all: try (assert (Hne : cs <> []) by (apply Icn; auto); destruct cs as [|c0 cs0]; [congruence|]; cbn in *; solve_forall; fail).
   all: try (destruct cs as [|c0 cs0]; cbn in *; solve_forall; fail).
+  all: try (apply Iac; reflexivity).
+  all: try (assert (Hne : cs <> []) by (apply Icn; auto); specialize (Iabs (or_intror eq_refl)); destruct cs as [|c0 cs0]; [congruence|];
+            cbn [upd_cur s_cs hd cur count_started] in *; unfold started; cbn [set_w c_w]; rewrite Iabs; lia).
+  all: try (intros _; assert (Hne : cs <> []) by (apply Icn; auto); destruct cs as [|c0 cs0]; [congruence|];
+            cbn [upd_cur s_cs tl] in *; constructor; [cbn; discriminate|exact Iao]).
+  all: try (intros _; specialize (Iac eq_refl); destruct cs as [|c0 cs0]; cbn [upd_cur s_cs]; [constructor|];
+            inversion Iac; subst; constructor; [cbn; assumption|assumption]).
 Qed.
 
 Lemma Forall_upd_nth_at {A} (P : A -> Prop) : forall (l : list A) i f c,
@@ -213,7 +223,7 @@ Proof. intros [|x l] k; [destruct k; reflexivity|reflexivity]. Qed.
 Lemma inv_writer : forall s h i w s' l, Inv s h -> writer_step s i w = Some (s', l) -> Inv s' (h ++ [l]).
 Proof.
   intros [m cs wg ctx] h i w s' l I H.
-  destruct I as [Ialt Ictx Iec Idt Ibef Ilast Ictr Ioo Ioc Iwg Iabs Ies Ird Ir2 Irr Icn Ist Iwe].
+  destruct I as [Ialt Ictx Iec Idt Ibef Ilast Ictr Ioo Ioc Iwg Iabs Ies Ird Ir2 Irr Icn Ist Iwe Iao Iac].
   cbn [s_m s_cs s_wg s_ctx] in *.
   unfold writer_step in H; cbn [s_m s_cs s_wg s_ctx] in H.
   destruct (nth_error cs i) as [c|] eqn:Hn; [|discriminate].
@@ -247,12 +257,14 @@ Proof.
             [subst cs; destruct i; discriminate
             |right; left; destruct i; [destruct cs as [|c0 cs0]; [discriminate|]; cbn in Hn; inversion Hn; subst; cbn [hd set_w set_exit set_closed c_exit] in *; auto | exact H1]
             |right; right; exact H2]; fail).
+  all: try (destruct i; [exact Iao | apply Forall_upd_nth; [exact Iao | intros x Hx; cbn [set_w set_exit set_closed c_w]; discriminate]]; fail).
+  all: try (intro Hm; apply Forall_upd_nth; [apply Iac; exact Hm | intros x Hx; cbn [set_w set_exit set_closed c_w]; discriminate]; fail).
 Qed.
 
 Lemma inv_cancel : forall s h s' l, Inv s h -> step s CCancel = Some (s', l) -> Inv s' (h ++ [l]).
 Proof.
   intros [m cs wg ctx] h s' l I H. cbn in H. destruct ctx; [discriminate|]. inversion H; subst; clear H.
-  destruct I as [Ialt Ictx Iec Idt Ibef Ilast Ictr Ioo Ioc Iwg Iabs Ies Ird Ir2 Irr Icn Ist Iwe].
+  destruct I as [Ialt Ictx Iec Idt Ibef Ilast Ictr Ioo Ioc Iwg Iabs Ies Ird Ir2 Irr Icn Ist Iwe Iao Iac].
   cbn [s_m s_cs s_wg s_ctx] in *.
   constructor; cbn [s_m s_cs s_wg s_ctx];
     rewrite ?cbs_app, ?has_cancel_app, ?has_retry_app, ?has_ct_app; cbn [cbs has_cancel has_retry has_ct existsb app orb];
@@ -316,58 +328,43 @@ Proof.
   - intro Hm. rewrite Hw, Hm. reflexivity.
 Qed.
 
-(* when the call has returned and no reconnection sleep (>= 1 s) ever happened, every writer
-   goroutine has executed its wg.Add(1): a drained wait group then means all are finished *)
-Theorem wg_drains_partial : forall cs,
+(* THE WAIT GROUP DRAINS ONLY WHEN EVERYTHING HAS FINISHED: in every reachable state, if the
+   counter is 0 (so that a Wait() returns) and the call has been entered, then the call has
+   returned and every writer goroutine it ever created has run to its end. *)
+Theorem wg_drains : forall cs,
   let s := fst (run init cs) in
-  s_m s = MReturned -> has_retry (snd (run init cs)) = false ->
-  Forall (fun c => c_w c <> WNotStarted) (s_cs s) /\
-  (s_wg s = 0 -> Forall (fun c => started c = 0) (s_cs s)).
+  s_wg s = 0 -> s_m s <> MStart ->
+  s_m s = MReturned /\ Forall (fun c => c_w c = WDone) (s_cs s).
 Proof.
-  intro cs. pose proof (inv_run cs init [] inv_init) as I. cbn [app] in I. cbn zeta. intros Hm Hr.
-  set (s := fst (run init cs)) in *. set (ls := snd (run init cs)) in *.
-  assert (Hns : Forall (fun c => c_w c <> WNotStarted) (s_cs s)).
-  { destruct (i_retry_ret _ _ I) as [H0|[H1|H2]]; [rewrite Hm; reflexivity| | |congruence].
-    - rewrite H0. constructor.
-    - pose proof (i_retry_two _ _ I) as H2. pose proof (i_exit_started _ _ I) as He.
-      destruct (s_cs s) as [|c [|c' r]] eqn:Ec.
-      + constructor.
-      + unfold cur in H1. rewrite Ec in H1. cbn in H1. inversion He; subst.
-        constructor; [|constructor]. specialize (H3 H1). unfold past_exit in H3. intro E. rewrite E in H3. discriminate.
-      + cbn in H2. rewrite H2 in Hr by lia. discriminate. }
-  split; [exact Hns|].
-  intro Hz. pose proof (i_wg _ _ I) as Hw. fold s in Hw. rewrite Hm in Hw. cbn in Hw.
-  assert (Hc : count_started (s_cs s) = 0) by lia. clear -Hc.
-  induction (s_cs s) as [|c l IH]; [constructor|]. cbn in Hc.
+  intro cs. pose proof (inv_run cs init [] inv_init) as I. cbn zeta. intros Hz Hs.
+  set (s := fst (run init cs)) in *. clearbody s.
+  pose proof (i_wg _ _ I) as Hw.
+  pose proof (count_started_nonneg (s_cs s)) as Hc.
+  assert (Hm0 : 0 <= main_c (s_m s)) by (destruct (s_m s); cbn [main_c]; lia).
+  assert (Hm : main_c (s_m s) = 0) by lia.
+  assert (Hret : s_m s = MReturned) by (destruct (s_m s); cbn in Hm; try discriminate; [congruence|reflexivity]).
+  split; [exact Hret|].
+  pose proof (i_abs_cur _ _ I) as Ha. rewrite Hret in Ha. specialize (Ha eq_refl).
+  assert (Hcz : count_started (s_cs s) = 0) by lia. clear -Hcz Ha.
+  induction (s_cs s) as [|c l IH]; [constructor|]. cbn [count_started] in Hcz. inversion Ha; subst.
   pose proof (count_started_nonneg l). assert (0 <= started c) by (unfold started; destruct (c_w c); lia).
-  constructor; [lia|apply IH; lia].
+  constructor; [|apply IH; [assumption|lia]].
+  unfold started in *. destruct (c_w c); try lia; [congruence|reflexivity].
 Qed.
 
-(* but in general the wait group can drain while a writer goroutine has not even started:
-   the connection is lost, the retry sleep passes, the next dial fails, the context is
-   cancelled and the call returns - all before the writer of the lost connection was scheduled *)
+(* the defect that was found in the code before /repo c935b5d (wg.Add(1) executed inside the
+   writer goroutine): the connection is lost, the retry sleep passes, the next dial fails, the
+   context is cancelled and the call returns - all before the writer goroutine of the lost
+   connection was scheduled: counter 0 with a goroutine still to run, which then Adds *)
 Definition wg_gap_schedule : list choice :=
   [CMain ENone; CMain EDialOk; CMain ENone; CMain ENone; CMain ENone; CMain (EReadFail false);
    CMain ENone; CMain ENone; CMain ENone; CMain ENone; CMain ENone; CMain EDialFail; CCancel;
    CMain ESelCtx; CMain ENone].
 
-Theorem wg_drains_refuted :
-  exists cs, let s := fst (run init cs) in
-    s_m s = MReturned /\ s_wg s = 0 /\ exists c, In c (s_cs s) /\ c_w c = WNotStarted.
-Proof.
-  exists wg_gap_schedule. vm_compute. repeat split. eexists. split; [left; reflexivity|reflexivity].
-Qed.
-
-(* ... and that goroutine then calls wg.Add(1) on the drained wait group *)
-Theorem wg_gap_then_add :
-  s_wg (fst (run init (wg_gap_schedule ++ [CWriter 0 WNone]))) = 1.
-Proof. reflexivity. Qed.
-
-(* such a run necessarily contains the reconnection sleep *)
-Theorem wg_gap_needs_retry_sleep : forall cs,
-  let s := fst (run init cs) in
-  s_m s = MReturned -> (exists c, In c (s_cs s) /\ c_w c = WNotStarted) -> has_retry (snd (run init cs)) = true.
-Proof.
-  intros cs s Hm (c & Hin & Hc). destruct (has_retry (snd (run init cs))) eqn:E; [reflexivity|].
-  destruct (wg_drains_partial cs Hm E) as [Hns _]. rewrite Forall_forall in Hns. exfalso. exact (Hns c Hin Hc).
-Qed.
+Theorem legacy_wg_gap :
+  let s := fst (run_legacy init wg_gap_schedule) in
+  s_m s = MReturned /\ s_wg s = 0 /\ (exists c, In c (s_cs s) /\ c_w c = WNotStarted) /\
+  s_wg (fst (run_legacy init (wg_gap_schedule ++ [CWriter 0 WNone]))) = 1 /\
+  (* the same schedule in the repaired system: the counter still holds the goroutine *)
+  s_wg (fst (run init wg_gap_schedule)) = 1.
+Proof. vm_compute. repeat split. eexists. split; [left; reflexivity|reflexivity]. Qed.
